@@ -396,3 +396,154 @@ pub(crate) fn bucket_value(root_page: u64, next_int: u64) -> [u8; 16] {
     }
     v
 }
+
+// ---- C07: a write transaction's scans see its own puts and deletes (node overlay over the mapped pages)
+// @ob props=C07,C01 tier=quick cap=900 mem=16 fns=Cursor::next,Cursor::seek_first,Cursor::current,InnerBucket::page_node,InnerBucket::put,InnerBucket::node,PageNode::val,PageNode::len bound="root leaf page with 2 sorted symbolic keys; one put of a symbolic key (new or existing), then a full scan" unwind=5
+#[kani::proof]
+#[kani::unwind(5)]
+fn cursor_scan_after_put() {
+    let k2: [[u8; 2]; 2] = kani::any();
+    kani::assume(k2[0] < k2[1]);
+    tree_single_leaf(&[k2[0], k2[1], [0, 0]], 2);
+    let b = mk_bucket(3, true);
+    let k: [u8; 2] = kani::any();
+    let r = b.put(k, [42u8]);
+    assert!(r.is_ok());
+    std::mem::forget(r);
+    // expected sequence
+    let hit = k == k2[0] || k == k2[1];
+    let mut exp = [[0u8; 2]; 3];
+    let mut n = 0;
+    let mut placed = false;
+    let mut i = 0;
+    while i < 2 {
+        if !placed && k <= k2[i] {
+            exp[n] = k;
+            n += 1;
+            placed = true;
+        }
+        if k2[i] != k {
+            exp[n] = k2[i];
+            n += 1;
+        }
+        i += 1;
+    }
+    if !placed {
+        exp[n] = k;
+        n += 1;
+    }
+    assert!(n == if hit { 2 } else { 3 });
+    let mut c = b.cursor();
+    let mut j = 0;
+    while j < 3 {
+        if j < n {
+            let d = c.next();
+            assert!(key_of(&d) == Some(exp[j]), "the scan reflects the transaction's own put, in order");
+            if exp[j] == k {
+                if let Some(Data::KeyValue(kv)) = &d {
+                    assert!(kv.value().len() == 1 && kv.value()[0] == 42, "with the value just written");
+                }
+            }
+            std::mem::forget(d);
+        }
+        j += 1;
+    }
+    let e = c.next();
+    assert!(e.is_none());
+    kani::cover!(hit);
+    kani::cover!(!hit && k < k2[0]);
+    std::mem::forget(c);
+    std::mem::forget(b);
+}
+
+// @ob props=C07,C01 tier=quick cap=900 mem=16 fns=Cursor::next,Cursor::seek_first,Cursor::current,InnerBucket::page_node,InnerBucket::delete,InnerBucket::node bound="root leaf page with 3 sorted symbolic keys; one delete (index symbolic), then a full scan" unwind=5
+#[kani::proof]
+#[kani::unwind(5)]
+fn cursor_scan_after_delete() {
+    let keys: [[u8; 2]; 3] = kani::any();
+    kani::assume(keys[0] < keys[1] && keys[1] < keys[2]);
+    tree_single_leaf(&keys, 3);
+    let b = mk_bucket(3, true);
+    let idx: usize = kani::any();
+    kani::assume(idx < 3);
+    let r = b.delete(keys[idx]);
+    assert!(r.is_ok());
+    std::mem::forget(r);
+    let mut c = b.cursor();
+    let mut i = 0;
+    while i < 3 {
+        if i != idx {
+            let d = c.next();
+            assert!(key_of(&d) == Some(keys[i]), "the scan reflects the transaction's own delete");
+            std::mem::forget(d);
+        }
+        i += 1;
+    }
+    let e = c.next();
+    assert!(e.is_none());
+    std::mem::forget(c);
+    std::mem::forget(b);
+}
+
+// ---- C07: two leaves under a branch; the transaction empties the FIRST leaf, the scan must still deliver the second
+// @ob props=C07 tier=quick cap=1200 mem=16 fns=Cursor::next,Cursor::seek_first,Cursor::current,InnerBucket::page_node,InnerBucket::delete,InnerBucket::node,PageNode::val bound="branch page over two leaf pages with 2 symbolic keys each; both keys of the first leaf deleted in the transaction; then a full scan" unwind=5
+#[kani::proof]
+#[kani::unwind(5)]
+fn cursor_scan_after_emptying_first_leaf() {
+    let a: [[u8; 2]; 2] = kani::any();
+    let b2: [[u8; 2]; 2] = kani::any();
+    kani::assume(a[0] < a[1] && a[1] < b2[0] && b2[0] < b2[1]);
+    tree_two_leaves(&a, &b2);
+    let b = mk_bucket(3, true);
+    let r = b.delete(a[0]);
+    assert!(r.is_ok());
+    std::mem::forget(r);
+    let r = b.delete(a[1]);
+    assert!(r.is_ok());
+    std::mem::forget(r);
+    let mut c = b.cursor();
+    let d = c.next();
+    assert!(key_of(&d) == Some(b2[0]), "JV-C07-EMPTY-LEAF: the scan skips the emptied leaf and delivers the entries of the next one");
+    std::mem::forget(d);
+    let d = c.next();
+    assert!(key_of(&d) == Some(b2[1]));
+    std::mem::forget(d);
+    let e = c.next();
+    assert!(e.is_none());
+    std::mem::forget(c);
+    std::mem::forget(b);
+}
+
+// ---- C07: two leaves; put into the second leaf, scan crosses from an untouched page into a materialised node
+// @ob props=C07,C08 tier=quick cap=1200 mem=16 fns=Cursor::next,Cursor::seek_first,Cursor::current,InnerBucket::page_node,InnerBucket::put,InnerBucket::node,Node::insert_child bound="branch page over two leaf pages with 2 symbolic keys each; one new key put above the second leaf's first key; then a full scan" unwind=5
+#[kani::proof]
+#[kani::unwind(5)]
+fn cursor_scan_mixed_page_and_node() {
+    let a: [[u8; 2]; 2] = kani::any();
+    let b2: [[u8; 2]; 2] = kani::any();
+    kani::assume(a[0] < a[1] && a[1] < b2[0] && b2[0] < b2[1]);
+    tree_two_leaves(&a, &b2);
+    let b = mk_bucket(3, true);
+    let k: [u8; 2] = kani::any();
+    kani::assume(k > b2[0] && k != b2[1]);
+    let r = b.put(k, [42u8]);
+    assert!(r.is_ok());
+    std::mem::forget(r);
+    let exp = if k < b2[1] { [a[0], a[1], b2[0], k, b2[1]] } else { [a[0], a[1], b2[0], b2[1], k] };
+    let mut c = b.cursor();
+    let mut i = 0;
+    while i < 5 {
+        let d = c.next();
+        assert!(key_of(&d) == Some(exp[i]), "untouched pages and materialised nodes are scanned as one ordered sequence");
+        std::mem::forget(d);
+        i += 1;
+    }
+    let e = c.next();
+    assert!(e.is_none());
+    // and a point lookup through the untouched leaf still works
+    let g = b.get(a[1]);
+    assert!(key_of(&g) == Some(a[1]));
+    std::mem::forget(g);
+    std::mem::forget(c);
+    std::mem::forget(b);
+}
